@@ -1077,6 +1077,12 @@ class DriverLubaRs232(DriverSerialBase):
             # Make sure the received command buffer is empty, so that an
             # unexpected response can't accidentally be used
             self._protocol.reset_dali_response()
+            if msg.devicetype != 0 and not in_transaction:
+                # Within a transaction the caller (e.g. run_sequence) sends
+                # the EnableDeviceType prefix itself
+                await self._protocol.send_dali_command(
+                    gear.general.EnableDeviceType(msg.devicetype)
+                )
             await self._protocol.send_dali_command(msg)
             if msg.is_query:
                 response = command.Response(None)
@@ -1668,6 +1674,12 @@ class DriverSCIRS232(DriverSerialBase):
             # Make sure the received command buffer is empty, so that an
             # unexpected response can't accidentally be used
             self._protocol.reset_dali_response()
+            if msg.devicetype != 0 and not in_transaction:
+                # Within a transaction the caller (e.g. run_sequence) sends
+                # the EnableDeviceType prefix itself
+                await self._protocol.send_dali_command(
+                    gear.general.EnableDeviceType(msg.devicetype)
+                )
             await self._protocol.send_dali_command(msg)
             if msg.is_query:
                 response = command.Response(None)
